@@ -57,6 +57,10 @@ LEVEL_TEXT = (
     "still changes the object re-triggers the cycle (carried_ops_leaves_event); one that has become a no-op swallows the cycle: "
     "carried_noop_witness = the negation of convergence, carried_noop_blocks_release_witness = a deletion that is never released "
     "(OPEN C03-N2, two corpus witnesses), both tied on the real operator's cycle. "
+    "Cycles held back by C07's consistency barrier (the worker still awaits the echo of its own last write) have the turn "
+    "`loopStepI`: with no patch accumulated it is the same turn taken at the deadline (inconsistent_empty_partial); with one, the "
+    "wait AND the handlers are skipped and a patch that changes nothing brings no event: inconsistent_nonempty_witness (OPEN "
+    "C03-N6, found by the thorough generator; two corpus witnesses, tied on the real operator's cycle). "
     "Repaired in /repo and kept as regressions: C03-F1 (2ae938f), C03-F3 (d1b2dc4), C03-F5 (1c8f3dd, finalizer functions only — "
     "the rest is C03-N2), C03-F7 (7224f57), C03-N1 "
     "(b7bf39c, sleeping_handler_woken_instance), 5dff3c1 (lost echo + constant on.event result). C03-F6 (name-addressed patches "
@@ -74,7 +78,7 @@ THEOREMS = [("Kopf.Props.C03", "Kopf.C03." + n) for n in [
     "open_pass_leaves_event", "sleeping_handler_woken_instance", "invoked_once_after_last_change", "restart_safe",
     "accumulated_change", "blind_quiescent", "blind_witness", "free_quiescent", "free_witness", "shared_id_witness",
     "carried_none_partial", "carried_ops_leaves_event", "carried_noop_witness", "carried_noop_blocks_release_witness",
-    "skip_path_purges", "terminates_stable_partial", "unstable_filters_witness", "filtersStable_of_essence"]]
+    "inconsistent_empty_partial", "inconsistent_nonempty_witness", "skip_path_purges", "terminates_stable_partial", "unstable_filters_witness", "filtersStable_of_essence"]]
 RULE = ("seeded histories of one object: 1-4 change handlers (create/update/resume/delete, label filters, retries/timeout/backoff/"
         "errors, scripts with finitely many temporary/arbitrary/permanent failures then ok, handlers that take time (8 %), ONE id "
         "registered for two causes (6 %), three lifecycles), 0-6 external ops (spec edits, reverts, label flips, annotation edits, "
@@ -129,6 +133,10 @@ ASSUMPTIONS = ["GUARD FiltersStable: selection / prematch / finalizer requiremen
                "in which a handler call takes time is skipped by the tie (`handler-takes-time`, counted)",
                "handlers return no result (no status.<handler> write besides the progress record), except on.event constants",
                "randomized/shuffled lifecycles are not modelled",
+               "whether C07's consistency barrier is up is not modelled (`consistent = true`); a held-back cycle is tied only in the "
+               "shape of `loopStepI … true` (the object's last cycle, deadline ahead, non-empty patch, nothing came of it = C03-N6); "
+               "the generator reaches it through a foreign edit + stream cut (410) before the echo of an own write is delivered, "
+               "with an on.event handler that returns a constant or appends an idempotent function",
                "tail cycles the model has no turn for are dropped and COUNTED (`tail_leading_cycles_dropped`): cycles held back by "
                "the consistency barrier (C07), cycles on a view older than the server's state (echoes still in flight when the "
                "environment fell silent), a finalizer edit that also cleans the touch-dummy (two requests, two echoes), the echo "
@@ -153,6 +161,7 @@ SIG_N2 = {"site": "process_resource_causes+apply", "shape": "cycle entered with 
 SIG_N3 = {"site": "process_changing_cause", "shape": "one handler id registered for two causes: the finished record of the other cause is re-purposed, the handler of the current cause is never called"}
 SIG_N4 = {"site": "process_resource_causes", "shape": "object marked for deletion, not held by the framework's finalizer but by another: out of sight, stale progress record / last-handled stay"}
 SIG_N5 = {"site": "watching.streaming_block", "shape": "graceful stop never finishes: the watcher's cancellation is swallowed (stop requested while the watcher leaves its streaming block after a 410)"}
+SIG_N6 = {"site": "process_resource_causes", "shape": "cycle still awaiting the version of its own last write, with a non-empty patch that brings no event: the wait for the consistency deadline is skipped, the handlers are skipped, no event follows — handling never resumes"}
 SIG_F4 = {"site": "process_changing_cause", "shape": "handler finished on an older state of a still-open cycle is not re-run for the newer state, yet last-handled becomes the newer state"}
 
 
@@ -241,7 +250,10 @@ def _calls_of(tr: dict, c: dict, kind: str | None = None) -> list[dict]:
     inv = {(i["id"], i["retry"]) for i in c["invoked"]}
     return [call for call in tr["calls"]
             if call["inc"] == c["inc"] and call["uid"] == c["uid"] and (call["id"], call.get("retry")) in inv
-            and c["t0"] <= call["t"] <= c.get("t1", call["t"]) and (kind is None or call["kind"] == kind)]
+            and c["t0"] <= call["t"] <= c.get("t1", call["t"]) and (kind is None or call["kind"] == kind)
+            # the handler is given the body of the cycle's event: a cycle that starts in the very tick the one before
+            # ends (a handler that took time, the next event already waiting) is told apart by the resource version
+            and (call.get("rv") is None or c.get("rv") is None or str(call["rv"]) == str(c["rv"]))]
 
 
 def _canon_diff(d: Any) -> list:
@@ -301,6 +313,7 @@ class Facts:
         # finalizer JSON-patch), skipped the handlers for that reason and then issued no request at all
         mine = [c for c in tr["cycles"] if c["uid"] == self.uid and c["inc"] == self.last_inc and c["event_type"] != "DELETED"]
         who = f"op#{self.last_inc}"
+        self.lost_wait = False       # the last cycle skipped the consistency wait for a patch that brought no event
         self.lost_wakeup = None      # "finalizer" | "handler": which kind of carried function swallowed the cycle
         self.idle_fns = False        # the last cycle had delays and a patch of functions only that produced no request
         if mine and self.final is not None:
@@ -316,6 +329,16 @@ class Facts:
                     self.lost_wakeup = "stale"      # carried although the cycle before had no conflict
             elif ap.get("delays") and not ap.get("patch") and ap.get("fns") and silent:
                 self.idle_fns = True
+            # lost wake-up in the consistency wait: the last cycle was held back by the barrier (it still awaits the version of
+            # the framework's own last write: that echo was lost, e.g. with a cut watch stream) with the deadline still ahead;
+            # its patch was non-empty (an on.event result, transformation functions), so the wait was skipped ("the patch will
+            # bring the next event") together with the handlers — but the patch changed nothing: no version of the object after it
+            ct = c.get("consistency_time")
+            quiet = not any(float(v["t"]) >= c["t0"] and v["body"]["metadata"].get("uid") == self.uid for v in self.hist)
+            self.lost_wait = bool(c.get("pcc") is None and ct is not None and c.get("cause") is not None
+                                  and c["cause"].get("reason") in KINDS and not mb.get("remaining_patch")
+                                  and float(ct) > float(c.get("loop_t0", ct)) and (ap.get("patch") or ap.get("fns"))
+                                  and not (set(ap.get("fns") or []) & {"block_deletion", "allow_deletion"}) and quiet)
         # what the cross-uid writes carried: annotation keys set / deleted on the successor
         self.cross_set, self.cross_del = set(), set()
         for r in self.cross_uid:
@@ -349,7 +372,7 @@ def oracle(ctx: Ctx, sc: dict, tr: dict) -> dict:
     def fail(what: str, replay: Any, signature: dict, about: tuple | None = None, tag: str | None = None) -> None:
         """Report a failure; ONLY a failure that the content of a cross-uid write explains (it put that record / that
         last-handled state onto this object) is reported as the consequence of that write (C03-F6)."""
-        if signature not in (SIG_F2, SIG_F4, SIG_N1, SIG_N2, SIG_N3) and f.cross_explains(about):
+        if signature not in (SIG_F2, SIG_F4, SIG_N1, SIG_N2, SIG_N3, SIG_N6) and f.cross_explains(about):
             ctx.oracle_fail(what + " [after a write computed for the deleted predecessor landed on this object]",
                             {**replay, "cross_uid_writes": [[r["wall"], r["cycle_uid"], r["target_uid"], r.get("payload")] for r in f.cross_uid[:3]]},
                             SIG_F6)
@@ -448,6 +471,13 @@ def oracle(ctx: Ctx, sc: dict, tr: dict) -> dict:
                      "no request, the sleep and the touch were skipped", {**rep, "final": f.final}, SIG_N1, tag="C03-N1")
                 out["class"] = "lost-wakeup"
                 return out
+            if f.lost_wait:
+                fail("the deletion stopped for good with the object still held by the framework's finalizer: the last cycle was "
+                     "still awaiting the version of the framework's own last write; its patch was non-empty, so the wait for the "
+                     "consistency deadline and the handlers were skipped, but the patch changed nothing: no event follows",
+                     {**rep, "final": f.final}, SIG_N6, tag="C03-N6")
+                out["class"] = "lost-wakeup"
+                return out
             if f.lost_wakeup:
                 fail("the deletion stopped for good with the object still held by the framework's finalizer: the last cycle carried "
                      "a remaining patch, skipped the handlers (and the release) and wrote nothing, so no event will ever re-trigger it",
@@ -478,6 +508,15 @@ def oracle(ctx: Ctx, sc: dict, tr: dict) -> dict:
              "that produced no request; that counted as a change, so the sleep and the touch were skipped and no event follows",
              {**rep, "last_handled": base, "essence": f.ess, "annotations": sorted((f.final["metadata"].get("annotations") or {}))},
              SIG_N1, tag="C03-N1")
+        out["class"] = "lost-wakeup"
+        return out
+    if f.lost_wait and not f.blind and (base != f.ess or any(OWN_PREFIX + h.replace("/", ".") in (f.final["metadata"].get("annotations") or {})
+                                                              for h in _all_ids(sc))):
+        fail("handling stopped for good with work outstanding: the last cycle was still awaiting the version of the framework's own "
+             "last write (its echo was lost); its patch was non-empty, so the wait for the consistency deadline and the handlers "
+             "were skipped — but the patch changed nothing, no event follows, and the worker exits when the deadline passes",
+             {**rep, "last_handled": base, "essence": f.ess, "annotations": sorted((f.final["metadata"].get("annotations") or {}))},
+             SIG_N6, tag="C03-N6")
         out["class"] = "lost-wakeup"
         return out
     if f.lost_wakeup and not f.blind and base != f.ess:
@@ -722,12 +761,27 @@ def abstract_tail(sc: dict, tr: dict, cap: int) -> tuple[list | None, Any]:
 
     dropped_dummy = False
     dropped: dict[str, int] = {}
+    last_dropped = None
     while cycles and (suppressed(cycles[0]) or stale(cycles[0])
                       or (fin_turn(cycles[0]) and (dummy(cycles[0]) or dropped_dummy))):
         why = "suppressed" if suppressed(cycles[0]) else ("stale-view" if stale(cycles[0]) else "finalizer-turn+dummy")
         dropped[why] = dropped.get(why, 0) + 1
         dropped_dummy = dropped_dummy or bool(fin_turn(cycles[0]) and not stale(cycles[0]))
-        cycles.pop(0)
+        last_dropped = (cycles.pop(0), why)
+    # ONE shape of a held-back cycle the model has a turn for (`loopStepI`): it is the object's LAST cycle, the barrier is up
+    # with the deadline ahead, a patch was accumulated before the state-dependent part, so the wait and the handlers were
+    # skipped — and nothing came of it (the open finding C03-N6 when work is outstanding)
+    inconsistent = None
+    if not cycles and last_dropped is not None and last_dropped[1] == "suppressed" and f.final is not None:
+        cl = last_dropped[0]
+        apl = cl.get("apply") or {}
+        ctl = cl.get("consistency_time")
+        if ctl is not None and cl.get("cause") is not None and float(ctl) > float(cl.get("loop_t0", ctl)) \
+                and (apl.get("patch") or apl.get("fns")) and not (cl.get("mem_before") or {}).get("remaining_patch") \
+                and not any(float(v["t"]) >= cl["t0"] and v["body"]["metadata"].get("uid") == f.uid for v in f.hist):
+            cycles = [cl]
+            dropped["suppressed"] -= 1
+            inconsistent = {"nonEmpty": True, "deadline": round(cl["t0"] * 64) + round((float(ctl) - float(cl["loop_t0"])) * 64)}
     # inside the tail: the echo of the merge half of a two-request write (e.g. the release: purge + finalizer removal),
     # held back by the barrier (C07) — the model's turn is atomic over both requests
     for c in [c for c in cycles[1:-1] if suppressed(c)]:
@@ -805,7 +859,8 @@ def abstract_tail(sc: dict, tr: dict, cap: int) -> tuple[list | None, Any]:
             prevP = {k: v for k, v in p["P_after"].items() if k in owned}
         passes.append({
             "reason": ft or (c["cause"]["reason"] if p is not None else
-                             (f"carried-{carried}" if c is c0 and carried != "none" and not blind else "blind")),
+                             ("inconsistent-nonempty" if c is c0 and inconsistent and not blind else
+                              f"carried-{carried}" if c is c0 and carried != "none" and not blind else "blind")),
             "selected": p["selected"] if p is not None else None,
             "invoked": inv,
             "now": p["now"] if p is not None else round(c["t0"] * 64),
@@ -835,7 +890,7 @@ def abstract_tail(sc: dict, tr: dict, cap: int) -> tuple[list | None, Any]:
                 passes[k]["blocked"] = FINALIZER in (f.final["metadata"].get("finalizers") or [])
     p0 = c0.get("pcc")
     mb = c0.get("mem_before")
-    if p0 is None and not blind and fin_turn(c0) is None and carried == "none":
+    if p0 is None and not blind and fin_turn(c0) is None and carried == "none" and inconsistent is None:
         return None, "first-pass-suppressed"
     if c0.get("cause") is None:
         return None, "no-cause"
@@ -857,13 +912,13 @@ def abstract_tail(sc: dict, tr: dict, cap: int) -> tuple[list | None, Any]:
         "marked": bool(c0["body"]["metadata"].get("deletionTimestamp")),
         "blocked": FINALIZER in (c0["body"]["metadata"].get("finalizers") or []),
         "changeReq": change_req, "foreignFins": foreign,
-        "constPatch": const_patch, "carried": carried,
+        "constPatch": const_patch, "carried": carried, "inconsistent": inconsistent,
         "resumed": sorted((mb or {}).get("resumed_handlers") or []),
         "prematch": not blind, "now": passes[0]["now"],
         "lat": 1 + round(float((sc.get("echo_delay") or {}).get("default", 0.0)) * 64), "cap": cap, "rtt": 1,
         "fuel": n + 8, "universe": owned}]
     return req, {"passes": passes, "quiescent": True, "dropped": dropped, "foreign": foreign, "idle": idle_vals is not None,
-                 "carried": carried}
+                 "carried": carried, "inconsistent": bool(inconsistent)}
 
 
 def model_view(out: dict, impl: dict) -> dict:
@@ -1179,6 +1234,8 @@ def _evaluate(ctx: Ctx, scenarios: list[dict], tie: bool = True) -> None:
                     ctx.count("tail_with", "foreign-finalizer")
                 if impl.pop("idle"):
                     ctx.count("tail_with", "idle-patch-fns")
+                if impl.pop("inconsistent"):
+                    ctx.count("tail_with", "held-back-nonempty-patch")
                 cr = impl.pop("carried")
                 if cr != "none":
                     ctx.count("tail_with", f"carried-patch-{cr}")
